@@ -30,6 +30,8 @@ CLAIMED = {
          'proof in Coq (case analysis of the step function) + K-api correspondence + differential histories'),
  'C11': ('7 C11', 'Coq theorems C11_sources (direct-slice path of a structured source = generic per-channel path), C11_window (loading from the window = loading from pre-sliced arrays), C11_chunks (for every input chunk size the rows produced are exactly rows [from, to) in frame channel order) over Model/Data.v; tie: the same data through inline / dict / structured array / HDF5 with permuted fields, extra datasets, dataset-name mapping, all windows and chunk sizes: byte-identical files, equal to the pre-sliced reference; K-api correspondence of the dict route',
          'proof in Coq (slice/zip algebra by induction) + differential execution across source kinds + K-api correspondence'),
+ 'C12': ('7 C12', 'Coq theorems C12_physical (whatever the physical writer returns reads back), C12_explicit (whatever the set encoder returns decodes to the set), C12_rejects_ident/text/uvari/unorm (exact domains: over-long, non-ASCII, out-of-range are Err), C12_rejects_incomplete (a successful check_objects implies origin, channels, frames and registered frame channels), C12_rejects_bad_data (a successful frame set-up implies every data set present, supported dtype, at most 2-D); the composition over the API is checked per run: valid programs with ONE injected invalidity and data-level invalid inputs: the write raises, or the returned file is decoded by the strict reader and judged faithful (C05/C07/C09 predicates)',
+         'proof in Coq of the components (exact domains, preconditions of a successful write) + malformed-input stream judged by the verified reader (partial: no single end-to-end theorem)'),
  'C13': ('7 C13', 'Coq theorem C13_index over exact integer arithmetic (Model/Data.v index_stats): INDEX-MIN/MAX are the attained minimum/maximum; SPACING only for >= 2 rows and only when every difference equals it or lies within (1 - d/s)^2 < 1/1000 of the non-zero median; DIRECTION reflects the monotone sense; single row: neither; tie: decoded FRAME attributes of real files over all dtypes / patterns / windows / user values vs the model statistics; known finding D9 for repeated writes with other data',
          'proof in Coq (exact arithmetic; partial for inexact float data) + reader judgement of real files + K-api correspondence'),
  'C19': ('7 C19', 'PARTIAL. Coq theorem C19_no_caller_write over a hand-abstracted ownership/effect model (Model/Effects.v): effect sequences whose writes target library-allocated buffers leave caller buffers unchanged, and the abstracted pipelines are such sequences; numpy/h5py aliasing itself is below the model. Code-tied part: bit-exact before/after snapshots of every caller-owned buffer (root buffers of views, flags, dict identity, HDF5 hash) on every data-path case incl. failing writes',
@@ -43,7 +45,7 @@ CLAIMED = {
  'C16': ('7 C16', 'Coq theorems C16_body (dec_nofmt (obname ++ payload) = (obname, payload)), C16_kept, C16_file (order and content through the physical layer, from C02); tie: type-1 records read back from real files vs model nofmt_body',
          'proof in Coq (decoder inversion + C02 round trip) + reader judgement of real files'),
 }
-NOT_YET = 'model and check for this property are not built yet in this round (planned: DESIGN.md section 8); not claimed at a weaker technique'
+NOT_YET = 'not claimed'
 
 checks = []
 for p in props:
